@@ -586,3 +586,152 @@ Proof.
   { intros D1 Hwf1. by apply pure_list_ext. }
   split; [exact HW|]. by apply Hobs.
 Qed.
+
+(** * the same with CREATE: every call tree of value transfers, storage writes, logs, self-destructs, reverts and
+    contract creations (constructors running any such code) is a clean journal extension — whatever an enclosing frame
+    reverts to, the cache is restored observationally.  [purec] = no precompile call anywhere. *)
+Fixpoint purec (i : instr) : bool :=
+  match i with
+  | IPre _ _ _ _ => false
+  | ICall _ _ _ _ body => forallb purec body
+  | ICreate _ _ _ _ _ body => forallb purec body
+  | _ => true
+  end.
+
+Section instr_induction_c.
+  Variable P : instr -> Prop.
+  Hypothesis Hst : forall k v, P (ISStore k v).
+  Hypothesis Hlg : P ILog.
+  Hypothesis Hrv : P IRevert.
+  Hypothesis Hbl : forall a, P (IBalance a).
+  Hypothesis Hsd : forall b, P (ISelfdestruct b).
+  Hypothesis Hcl : forall t v c r body, Forall P body -> P (ICall t v c r body).
+  Hypothesis Hcr : forall ad v c r sc body, Forall P body -> P (ICreate ad v c r sc body).
+  Hypothesis Hpr : forall p v c r, P (IPre p v c r).
+  Fixpoint instr_indc (i : instr) : P i :=
+    match i with
+    | ISStore k v => Hst k v
+    | ILog => Hlg
+    | IRevert => Hrv
+    | IBalance a => Hbl a
+    | ISelfdestruct b => Hsd b
+    | ICall t v c r body =>
+        Hcl t v c r body ((fix go (l : list instr) : Forall P l :=
+                             match l with
+                             | [] => List.Forall_nil P
+                             | x :: l' => @List.Forall_cons _ P x l' (instr_indc x) (go l')
+                             end) body)
+    | ICreate ad v c r sc body =>
+        Hcr ad v c r sc body ((fix go (l : list instr) : Forall P l :=
+                                 match l with
+                                 | [] => List.Forall_nil P
+                                 | x :: l' => @List.Forall_cons _ P x l' (instr_indc x) (go l')
+                                 end) body)
+    | IPre p v c r => Hpr p v c r
+    end.
+End instr_induction_c.
+
+(** Call / Create around a callee that is itself a clean extension ([force] as in [do_call_gen]) *)
+Lemma do_call_gen_pure force order W D caller target value run :
+  wf W D -> (forall D1, wf W D1 -> pure_step W D1 (run (W, D1))) ->
+  pure_step W D (do_call_gen force order (W, D) caller target value run).
+Proof.
+  intros Hwf Hrun. unfold do_call_gen. rewrite !(load_id _ _ _ Hwf).
+  destruct (negb (value =? 0) && (cbal D caller <? value)).
+  { split; [done|by apply ext_refl]. }
+  assert (HD0 : (if value =? 0 then D else D) = D) by (by destruct (value =? 0)). rewrite HD0.
+  rewrite !(load_id _ _ _ Hwf).
+  destruct (negb force && match objs D !! target with None => true | Some _ => false end && (value =? 0) && negb (is_precompile target)).
+  { split; [done|by apply ext_refl]. }
+  set (D2 := match objs D !! target with
+             | Some _ => D
+             | None => japp (set_obj D target (mkobj 0 ∅ ∅ ∅ false)) (JCreate target)
+             end).
+  assert (He2 : ext W D D2).
+  { unfold D2. destruct (objs D !! target) eqn:E; [by apply ext_refl|].
+    apply create_ext; auto. intros Hin. destruct Hwf as (Hs & _). destruct (Hs _ Hin). congruence. }
+  set (D3 := add_bal W (sub_bal W D2 caller value) target value).
+  assert (He3 : ext W D D3).
+  { unfold D3, sub_bal. eapply ext_trans; [exact He2|]. eapply ext_trans; [apply add_bal_ext, He2|].
+    apply add_bal_ext. apply add_bal_ext, He2. }
+  destruct (Hrun D3 (proj1 He3)) as [HW4 He4].
+  destruct (run (W, D3)) as [[W4 D4] oc]. cbn in HW4, He4. subst W4.
+  assert (He : ext W D D4) by (eapply ext_trans; eauto).
+  destruct oc; unfold pure_step; cbn [fst snd].
+  - split; [reflexivity|exact He].
+  - split; [reflexivity|]. apply ext_revert; [done|]. unfold snapshot. fold (jlen D). destruct He as (_ & L & _). lia.
+Qed.
+
+Theorem purec_instr_ext : forall i, purec i = true ->
+  forall order o self W D, wf W D -> pure_step W D (exec_instr order o self i (W, D)).
+Proof.
+  induction i as [k v| | |a|b|t v c r body IH|ad v c r sc body IH|p v c r] using instr_indc; intros Hp order o self W D Hwf;
+    cbn [exec_instr].
+  - split; [done|]. by apply set_state_ext.
+  - split; [done|]. by apply add_log_ext.
+  - split; [done|]. by apply ext_refl.
+  - split; [done|]. cbn. rewrite load_id by done. by apply ext_refl.
+  - rewrite load_id by done. destruct (objs D !! self) as [os|]; [|split; [done|by apply ext_refl]].
+    split; [done|]. cbn [fst snd]. eapply ext_trans; [by apply add_bal_ext|]. apply suicide_ext. by apply add_bal_ext.
+  - cbn [purec] in Hp. apply after_call_pure. apply (do_call_gen_pure false); [done|].
+    intros D1 Hwf1. destruct (N.leb 2 t && N.leb t 4); [|split; [done|by apply ext_refl]].
+    clear Hwf D. revert D1 Hwf1.
+    induction body as [|x body IHb]; intros D1 Hwf1; [split; [done|by apply ext_refl]|].
+    cbn [forallb] in Hp. apply andb_prop in Hp as [Hpx Hpb].
+    inversion IH as [|? ? IHx IHrest]; subst.
+    apply (pure_step_seq W D1 (exec_instr order o t x (W, D1))).
+    + by apply IHx.
+    + intros D2 Hwf2. by apply IHb.
+  - (* CREATE *)
+    cbn [purec] in Hp. rewrite !(load_id _ _ _ Hwf).
+    destruct (negb (v =? 0) && (cbal D self <? v)).
+    { apply after_call_pure. split; [done|by apply ext_refl]. }
+    pose proof (set_state_ext W D self NONCE_SLOT (read_state W D self NONCE_SLOT + 1) Hwf) as Hen.
+    set (D1 := set_state W D self NONCE_SLOT (read_state W D self NONCE_SLOT + 1)) in *.
+    destruct (nth_error ad (Z.to_nat (read_state W D self NONCE_SLOT))) as [t|].
+    2:{ apply after_call_pure. split; [done|exact Hen]. }
+    apply after_call_pure.
+    assert (Hstep : pure_step W D1 (do_call_gen true order (W, D1) self t v
+       (fun s' => let '(W', D') := s' in
+                  let s1 := (W', reset_obj D' t) in
+                  let '(s2, oc) := (fix exec_list (l : list instr) (t0 : N) (s : st) {struct l} : st * outcome :=
+                                      match l with
+                                      | [] => (s, Ok)
+                                      | x :: r0 => let '(s3, oc0) := exec_instr order o t0 x s in
+                                                   match oc0 with Ok => exec_list r0 t0 s3 | Fail => (s3, oc0) end
+                                      end) body t s1 in
+                  match oc with
+                  | Ok => ((fst s2, if sc then set_state (fst s2) (snd s2) t CODE_SLOT 1 else snd s2), Ok)
+                  | Fail => (s2, Fail)
+                  end))).
+    { apply do_call_gen_pure; [apply Hen|]. intros D2 Hwf2. cbv beta iota zeta.
+      pose proof (reset_ext W D2 t Hwf2) as Her.
+      assert (Hbody : forall Dx, wf W Dx ->
+                pure_step W Dx ((fix exec_list (l : list instr) (t0 : N) (s : st) {struct l} : st * outcome :=
+                                   match l with
+                                   | [] => (s, Ok)
+                                   | x :: r0 => let '(s3, oc0) := exec_instr order o t0 x s in
+                                                match oc0 with Ok => exec_list r0 t0 s3 | Fail => (s3, oc0) end
+                                   end) body t (W, Dx))).
+      { clear Her Hwf2 D2 Hen D1 Hwf D.
+        induction body as [|x body IHb]; intros Dx Hwfx; [split; [done|by apply ext_refl]|].
+        cbn [forallb] in Hp. apply andb_prop in Hp as [Hpx Hpb].
+        inversion IH as [|? ? IHx IHrest]; subst.
+        apply (pure_step_seq W Dx (exec_instr order o t x (W, Dx))).
+        + by apply IHx.
+        + intros D3 Hwf3. by apply IHb. }
+      destruct (Hbody (reset_obj D2 t) (proj1 Her)) as [HWb Heb].
+      destruct ((fix exec_list (l : list instr) (t0 : N) (s : st) {struct l} : st * outcome :=
+                   match l with
+                   | [] => (s, Ok)
+                   | x :: r0 => let '(s3, oc0) := exec_instr order o t0 x s in
+                                match oc0 with Ok => exec_list r0 t0 s3 | Fail => (s3, oc0) end
+                   end) body t (W, reset_obj D2 t)) as [[Wb Db] ocb].
+      cbn [fst snd] in HWb, Heb. subst Wb.
+      assert (He2 : ext W D2 Db) by (eapply ext_trans; eauto).
+      destruct ocb; unfold pure_step; cbn [fst snd].
+      - split; [done|]. destruct sc; [|exact He2]. eapply ext_trans; [exact He2|]. apply set_state_ext, He2.
+      - split; [done|exact He2]. }
+    destruct Hstep as [HWs Hes]. split; [exact HWs|]. eapply ext_trans; [exact Hen|exact Hes].
+  - discriminate.
+Qed.
